@@ -3,7 +3,7 @@ import BreezyVerif.Model.C42
 /-
 C42 driver.
 
-  exp <fmt tar|zip|dir> <special ~|hex> <filter ~|hex> <root hex> <subdir ~|hex> <ents>
+  exp <fmt tar|zip|zipx|dir> <special ~|hex> <filter ~|hex> <root hex> <subdir ~|hex> <ents>
       ents = `;`-joined `<path>|<name>|<kind f|d|l|o>|<content>|<exec T|F>|<target>` (`-` = none);
       every text is the hex of its UTF-8 bytes (`-` = empty)
       filter = suffix: regular files whose tree path ends with it are ASCII-upper-cased
@@ -65,7 +65,8 @@ def handle : List String → String
         match dirMembers f its with
         | .ok ms => showMembers ms
         | .error p => "E:" ++ hexOfStr p
-      else if fmt == "zip" then showMembers (zipMembers f root its)
+      else if fmt == "zip" then showMembers (zipMembers false f root its)
+      else if fmt == "zipx" then showMembers (zipMembers true f root its)
       else "bad-op"
     | _, _, _, _, _ => "bad-op"
   | ["root", dest] =>
